@@ -30,6 +30,16 @@ struct TapeSched
     // 1..edge_span basic-block edges (a pure function of edge_seed and the step index)
     uint64_t edge_seed = 0;
     unsigned edge_prob = 0, edge_span = 64;
+    // schedule token with bit 1 of `a` set switches the fine profile on (first such token wins)
+    void arm_fine(uint8_t a, uint16_t b, uint16_t c, uint16_t d)
+    {
+        if (edge_prob || !(a & 2))
+            return;
+        static const unsigned prob[4] = { 16, 48, 128, 255 }, span[8] = { 2, 4, 8, 16, 32, 64, 256, 2048 };
+        edge_prob = prob[(a >> 2) & 3];
+        edge_span = span[(a >> 4) & 7];
+        edge_seed = (((uint64_t)b << 32) | ((uint64_t)c << 16) | d) * 0x9e3779b97f4a7c15ull + 0x632be59bd9b4e019ull;
+    }
     uint64_t edge_budget_for_step()
     {
         if (!edge_prob)
